@@ -41,6 +41,10 @@ static inline void sym_load(void)
 	INPUTS
 #undef X
 #undef XA
+# if defined SYM_PIN
+	/* debugging aid: pin inputs to a stored counterexample, e.g. -DSYM_PIN='__CPROVER_assume(in.x==3);' */
+	SYM_PIN
+# endif
 }
 # define ASSUME(c)	__CPROVER_assume(c)
 # if defined WITNESS
